@@ -16,7 +16,8 @@ aspect model runs through `LP.PriceRules.step` on `sync w` (the functions the th
 * `swl by=<a> paid=<0|1> k=<k>`                                        SetWhitelist
 * `ust by=<a> paid=<0|1> t=<ns>`                                       UpdateStartTime
 * `sudomin d=<denom> a=<amt>` / `sudoair d=<denom> a=<amt>`            governance UpdateParams
-* `setstop e=<ns|->`                                                   the open-edition end_time is now this (after an UpdateEndTime attempt)
+* `uet by=<a> paid=<0|1> t=<ns>`                                       UpdateEndTime (open edition; `PriceRules.updateEnd`)
+* `setstop e=<ns|->`                                                   (environment form, no longer generated) the open-edition end_time is now this
 * `sudofee bps=<n>`                                                    governance UpdateParams{mint_fee_bps}
 * `facmig d=<denom|-> a=<amt|-> bps=<n|->`                             factory migrate (with / without an UpdateParamsMsg)
 * `mint buyer=<a> funds=<d:a,…|->`                                     Mint {} by an eligible buyer
@@ -74,6 +75,7 @@ def parseOp (ws : List String) : Option Op :=
   | some "rdp" => do let a ← natKv ws "by"; let pd ← boolKv ws "paid"; pure (.removeDiscount a pd)
   | some "swl" => do let a ← natKv ws "by"; let pd ← boolKv ws "paid"; let k ← natKv ws "k"; pure (.setWhitelist a pd k)
   | some "ust" => do let a ← natKv ws "by"; let pd ← boolKv ws "paid"; let t ← natKv ws "t"; pure (.updateStart a pd t)
+  | some "uet" => do let a ← natKv ws "by"; let pd ← boolKv ws "paid"; let t ← natKv ws "t"; pure (.updateEnd a pd t)
   | some "sudomin" => do let c ← coinKv ws "d" "a"; pure (.sudoMin c)
   | some "sudoair" => do let c ← coinKv ws "d" "a"; pure (.sudoAirdrop c)
   | some "mint" => do let f ← pairListKv ws "funds"; pure (.mint (f.map fun (d, a) => ⟨d, a⟩))
